@@ -5,9 +5,12 @@ C04 / C15 (HTML body filters) — `enter` and `first` of the three visitors REGE
 run from src/filter/html_body_action/body_append.rs, body_prepend.rs, body_replace.rs (tools/consts.d/w4_translate.py,
 section `w4_translate_visitor`).  Proofs/VisitorGen.lean relates the code's state (`element_tree`, `position`) to the
 zipper of W6's visitor model (`Rep`) and shows that the translated functions compute what `Visitor.enter` /
-`Visitor.first` compute and preserve the relation.  Here: that equality as property theorems, and the position
-arithmetic in closed form for the translated code (descend while a deeper element remains; at the last level append
-buffers iff it has a non-empty selector, prepend emits its content at once iff it has none, replace always buffers).
+`Visitor.first` compute and preserve the relation.  Here: that equality as property theorems (`gen_visitor_*`), and
+two PINS OF THE GENERATED TEXT (`enter_descends_gen`, `enter_last_level_gen`: the generated definitions with the `if`
+resolved — tripwires for a change of the generated text, no knowledge beyond `gen_visitor_enter_eq_model`).
+The translation renders `v[i]` as `(v[i]?).getD []` and `opt.as_ref().unwrap()` as `opt.getD []`, i.e. it TOTALISES two
+Rust panics; `gen_visitor_index_in_range` shows that under `Rep` the index is in range (the default is never used), and
+the `unwrap` is guarded by `is_some() &&` / `is_none() ||` in the source; the two pins carry `pos < tree.length`.
 NOT translated: `leave` (an `if` used as a value with a side effect on `position`, `as i32`, `?` / `Ok`, the calls of
 `evaluate` / `append_child` / `prepend_child`) — it stays tied by the correspondence only.
 -/
@@ -39,12 +42,24 @@ theorem gen_visitor_enter_eq_model {tree : List Bytes} {pos : Nat} {v : Visitor}
    fun hk => genReplaceEnter_eq hk h data⟩
 
 /-- the state built by `new` (position 0 of a non-empty element tree) is represented, so the theorems apply from the
-start and, by preservation, after every `enter` -/
+start and, by preservation, after every further `enter` UNTIL THE FIRST `leave` (`leave` is not translated: that the
+code's `leave` preserves `Rep` is not shown here) -/
 theorem gen_visitor_initial (kind : VKind) (first : Bytes) (rest : List Bytes) (sel : Option Bytes) (content : Bytes) :
     Rep (first :: rest) 0 { kind := kind, cur := first, after := rest, sel := sel, content := content } :=
   rep_new kind first rest sel content
 
-/-- **Descent, closed form for the translated code**: while a deeper element remains (`position + 1 < len`), each of
+/-- under the representation invariant every index the translated `enter` / `first` evaluate is in range: the
+`getD []` default of the translation is never used (the Rust indexing does not panic there) -/
+theorem gen_visitor_index_in_range {tree : List Bytes} {pos : Nat} {v : Visitor} (h : Rep tree pos v) :
+    pos < tree.length ∧ tree[pos]? = some v.cur ∧ 0 < tree.length ∧
+    (v.after ≠ [] → pos + 1 < tree.length) := by
+  have hl := h.len
+  refine ⟨by omega, ?_, by omega, fun ha => h.more.mpr ha⟩
+  rw [h.tree_eq, h.pos_eq]
+  simp [List.getElem?_append_right]
+
+/-- PIN OF THE GENERATED TEXT (not a restated property).  **Descent, closed form for the translated code**
+(`pos + 1 < len`, hence `pos` in range): while a deeper element remains (`position + 1 < len`), each of
 the three `enter`s asks for that element next, asks to be left at the current one, does not buffer, passes the data
 on unchanged and advances `position` by one. -/
 theorem enter_descends_gen (tree : List Bytes) (pos : Nat) (sel : Option Bytes) (content data : Bytes) (b : Bool)
@@ -57,11 +72,12 @@ theorem enter_descends_gen (tree : List Bytes) (pos : Nat) (sel : Option Bytes) 
       ((some ((tree[pos + 1]?).getD []), some ((tree[pos]?).getD []), false, data), pos + 1, b) := by
   simp [genBodyAppendEnter, genBodyPrependEnter, genBodyReplaceEnter, h]
 
-/-- **At the last level, closed form for the translated code** (`position + 1 ≥ len`): no further `enter`; append
+/-- PIN OF THE GENERATED TEXT (not a restated property).  **At the last level, closed form for the translated code**
+(`position + 1 ≥ len`, `position` in range — outside it the Rust code panics): no further `enter`; append
 buffers iff it has a non-empty selector; prepend without a (non-empty) selector emits `data ++ content` at once and
 keeps its flag, with one it starts buffering; replace always starts buffering.  `position` stays. -/
 theorem enter_last_level_gen (tree : List Bytes) (pos : Nat) (sel : Option Bytes) (content data : Bytes) (b : Bool)
-    (h : ¬ pos + 1 < tree.length) :
+    (hp : pos < tree.length) (h : ¬ pos + 1 < tree.length) :
     genBodyAppendEnter tree pos sel content data =
       ((none, some ((tree[pos]?).getD []), (sel.isSome && !(sel.getD []).isEmpty), data), pos) ∧
     genBodyPrependEnter tree pos sel content b data =
